@@ -97,10 +97,16 @@ class Ref:
         self.open = False
         self.ro = False
 
-    def apply(self, line):
+    lenient = False      # C09 mode: cursor moves are judged by the wording of C09, not by exact successor
+
+    def apply(self, line, actual=None):
         """returns the expected canonical output line, or None when the reference does not predict it"""
         w = line.split()
         op = w[0]
+        self.t = getattr(self, "t", 0) + 1
+        self.actual = actual
+        if not hasattr(self, "viol"):
+            self.viol = []
         if op == "open":
             if w[2] == "1":
                 self.dbs = {}
@@ -160,6 +166,8 @@ class Ref:
                 return "put ok" + (" ph=old:" + pval(old) if ph == 1 else "")
             if ph == 2:
                 return "put fail ph=new"
+            d.birth = getattr(d, "birth", {})
+            d.birth[e] = self.t
             d.m[e] = val
             return "put ok" + (" ph=new" if ph == 1 else "")
         if op in ("get", "getc", "del"):
@@ -241,14 +249,23 @@ class Ref:
             return "cur ok"
         if sub == "to":
             op = w[3]
+            if op in ("bf", "al"):
+                getattr(self, "pending", {}).pop(c, None)
             if op == "bf":
-                st[1:] = ["head", None]
+                st[3:] = [self.t]; st[1:3] = ["head", None]
                 return "cur ok"
             if op == "al":
-                st[1:] = ["tail", None]
+                st[3:] = [self.t]; st[1:3] = ["tail", None]
                 return "cur ok"
             keys = d.ordered()      # descending = NEXT order
+            if self.lenient and c in getattr(self, "pending", {}):
+                self.pending.pop(c)          # the previous move was never read back: position unknown
+                st[1] = "unknown"
             if st[1] == "unknown":
+                return None
+            if self.lenient:
+                self.pending = getattr(self, "pending", {})
+                self.pending[c] = ("pending", op, st[1], st[2], (self.actual or "cur ?").split()[1])    # judged when the following `cur c key` shows where it landed
                 return None
             if st[1] == "void":
                 return "cur notfound"
@@ -257,14 +274,14 @@ class Ref:
                     return "cur notfound"
                 if not keys:
                     return "cur notfound"
-                st[1:] = ["at", keys[0]]
+                st[3:] = [self.t]; st[1:3] = ["at", keys[0]]
                 return "cur ok"
             if st[1] == "tail":
                 if op == "next":
                     return "cur notfound"
                 if not keys:
                     return "cur notfound"
-                st[1:] = ["at", keys[-1]]
+                st[3:] = [self.t]; st[1:3] = ["at", keys[-1]]
                 return "cur ok"
             # at / gap: neighbours of the position in key space
             sk = d.sort_key()
@@ -279,10 +296,17 @@ class Ref:
                 if st[1] == "gap":
                     st[1] = "unknown"
                 return "cur notfound"
-            st[1:] = ["at", tgt]
+            st[3:] = [self.t]; st[1:3] = ["at", tgt]
             return "cur ok"
         if sub == "tokey":
             return self._seek(d, st, w[3], bytes.fromhex(w[4].replace("-", "")), int(w[5]))
+        if self.lenient and c in getattr(self, "pending", {}):
+            pend = self.pending.pop(c)
+            if sub == "key" and self.actual is not None:
+                self._judge(c, d, st, pend, self.actual)
+            else:
+                st[1] = "unknown"
+            return None
         if st[1] == "unknown" or st[1] == "gap":
             if sub in ("set", "del"):
                 # a write through a cursor that is not positioned on a record: the property does not say
@@ -328,13 +352,60 @@ class Ref:
             return "cur ok"
         return None
 
+    def _judge(self, c, d, st, pend, actual):
+        """C09: a move must return a live record strictly ahead of the cursor's position, and no record that has
+        existed continuously since the cursor was last positioned may lie between (or ahead, when it reports not-found)."""
+        _, op, kind, e0, move_rc = pend
+        sk = d.sort_key()
+        birth = getattr(d, "birth", {})
+        pt = st[3] if len(st) > 3 else 0
+        def ahead(x):
+            if kind == "head":
+                return op == "next"
+            if kind == "tail":
+                return op == "prev"
+            if kind == "void":
+                return False
+            return sk(x) < sk(e0) if op == "next" else sk(x) > sk(e0)
+        old_ahead = [x for x in d.m if ahead(x) and birth.get(x, 0) < pt]
+        w = actual.split()
+        if move_rc == "notfound" or w[1] == "notfound":
+            if old_ahead and kind != "void":
+                self.viol.append("cursor %d %s from %s %s reported not-found although record %s existed throughout and lies ahead"
+                                 % (c, op, kind, d.out_key(e0) if e0 else "", d.out_key(old_ahead[0])))
+            st[1] = "unknown" if kind == "gap" else kind
+            return
+        if w[1] != "ok":
+            self.viol.append("cursor %d key after %s: %s" % (c, op, actual))
+            st[1] = "unknown"
+            return
+        kh, cp = w[2].split(":")
+        kb = bytes.fromhex(kh.replace("-", ""))
+        x = (int.from_bytes(kb, "little"), int(cp)) if d.flags & VNUM else (kb, int(cp))
+        msg = None
+        if x not in d.m:
+            msg = "returned %s which is not a live record" % w[2]
+        elif not ahead(x):
+            msg = "returned %s which does not lie ahead of the cursor" % w[2]
+            if kind == "gap" and birth.get(x, 0) > pt:
+                msg += " [gap-newborn-behind: a record inserted, after the cursor deleted its record, between the cursor's neighbour and the gap]"
+        else:
+            lo, hi = (sk(x), sk(e0) if e0 is not None and kind in ("at", "gap") else None) if op == "next" else (sk(e0) if e0 is not None and kind in ("at", "gap") else None, sk(x))
+            skipped = [y for y in old_ahead if (sk(y) > sk(x) if op == "next" else sk(y) < sk(x))]
+            if skipped:
+                msg = "returned %s and skipped %s, which existed throughout and lies between" % (w[2], d.out_key(skipped[0]))
+        if msg:
+            self.viol.append("cursor %d %s from %s %s: %s" % (c, op, kind, d.out_key(e0) if e0 else "", msg))
+        st[3:] = [self.t]
+        st[1:3] = ["at", x]
+
     def _seek(self, d, st, op, key, comp):
         e = d.ekey(key, comp)
         if isinstance(e, str):
             return "cur " + e
         if op == "eq":
             if e in d.m:
-                st[1:] = ["at", e]
+                st[3:] = [self.t]; st[1:3] = ["at", e]
                 return "cur ok"
             if st[1] == "gap":
                 st[1] = "unknown"
@@ -345,7 +416,7 @@ class Ref:
             if st[1] == "gap":
                 st[1] = "unknown"
             return "cur notfound"
-        st[1:] = ["at", min(cand, key=sk)]
+        st[3:] = [self.t]; st[1:3] = ["at", min(cand, key=sk)]
         return "cur ok"
 
     def note_db_write(self, dbid, e, deleted):
